@@ -49,7 +49,8 @@ PORTS = {'mac': ['/dev/cu.usbmodem1411', '/dev/cu.usbmodem14201', '/dev/tty.usbm
 NICK_POOL = ['Bob', 'AxiDraw_7', 'NextDraw01', 'East', 'east2', 'Plotter', 'ab', 'Zed', 'MiniKit', 'Lab-3', 'bob2',
              'x1y2z3', 'Studio A', 'Axi Draw 2', 'West Wing 3', 'Axi+1', 'Rm[4]', 'Lab(2', 'a.b*c', 'Emma', 'Bart',
              'test rig', 'dot', 'SER', 'OK', ' Axi', 'USB', 'FT232R', 'Arduino', 'My', 'abcdefghijklmnop',
-             'Long_Plotter_13', 'East,West', 'A1', 'Z', 'ttyA', 'TTY', 'cu', 'usbmodem', 'dev', 'COM', 'ACM1']
+             'Long_Plotter_13', 'East,West', 'A1', 'Z', 'ttyA', 'TTY', 'cu', 'usbmodem', 'dev', 'COM', 'ACM1',
+             '/bin', '/lib', '/tmp', '../', '/proc/self/cwd']
 FOREIGN = [('FT232R USB UART', 'USB VID:PID=0403:6001 SER=A9XYZ LOCATION=1-3'),
            ('n/a', 'n/a'),
            ('Arduino Uno', 'USB VID:PID=2341:0043 SER=7533 LOCATION=1-1.4'),
